@@ -264,10 +264,27 @@ class NPFacade(types.ModuleType):
             r = _elementwise(lambda v, hi: hi if bool(v > hi) else v, r, a_max)
         return r
 
+    def digitize(self, x, bins, right=False):
+        if not (has_sym(x) or has_sym(bins)):
+            return np.digitize(x, bins, right=right)
+        return _digitize_obj(x, bins, right)
+
     def where(self, *args):
         if len(args) == 3 and (has_sym(args[0]) or has_sym(args[1]) or has_sym(args[2])):
             return _elementwise(lambda c, x, y: x if bool(c) else y, *args)
         return np.where(*args)
+
+
+def _digitize_obj(x, bins, right=False):
+    """np.digitize for monotonically increasing bins: a search over the comparison operators of the elements
+    (numpy's own implementation tests monotonicity in C on float64)."""
+    b = np.asarray(bins, dtype=object)
+    for i in range(len(b) - 1):
+        if not bool(b[i] <= b[i + 1]):
+            raise NotImplementedError("digitize facade: bins must be increasing")
+    xa = np.asarray(x, dtype=object)
+    flat = [sum(1 for e in b if (bool(e < v) if right else bool(e <= v))) for v in xa.ravel()]
+    return np.asarray(flat, dtype=np.intp).reshape(xa.shape)
 
 
 FACADE = NPFacade()
@@ -301,6 +318,9 @@ def selftest(seed=0):
         (np.asarray(_piecewise_obj(np.asarray(a, dtype=object), [a < 0, a > 3], [lambda v: -v, lambda v: v * 2, 7.0]), dtype=float),
          np.piecewise(a, [a < 0, a > 3], [lambda v: -v, lambda v: v * 2, 7.0])),
         (f.clip(a, -1.0, 2.0), np.clip(a, -1.0, 2.0)),
+        (_digitize_obj(a, [-1.0, 0.0, 0.5, 2.0]), np.digitize(a, [-1.0, 0.0, 0.5, 2.0])),
+        (_digitize_obj(a, [-1.0, 0.0, 0.5, 2.0], True), np.digitize(a, [-1.0, 0.0, 0.5, 2.0], right=True)),
+        (_digitize_obj([-1.0, 0.5, 2.0, 3.0], [-1.0, 0.0, 0.5, 2.0]), np.digitize([-1.0, 0.5, 2.0, 3.0], [-1.0, 0.0, 0.5, 2.0])),
         (f.copysign(p, a), np.copysign(p, a)),
         (np.asarray(_elementwise(lambda x, y: (abs(x) if y >= 0 else -abs(x)), p, a), dtype=float), np.copysign(p, a)),
         (np.asarray(_elementwise(lambda x, y: _sqrt1(x * x + y * y), a, p), dtype=float), np.hypot(a, p)),
